@@ -327,6 +327,8 @@ func (b *BlockWise[C]) sendEntityIncomplete(w *responsewriter.ResponseWriter[C],
 	sendMessage.SetToken(token)
 	sendMessage.SetType(message.NonConfirmable)
 	w.SetMessage(sendMessage)
+	// unless the request says that 4.xx is not of interest (RFC 7967)
+	w.DropIfNotOfInterest()
 }
 
 // isMethod reports whether code is a method code (0.01 - 0.31), i.e. the code of a request.
